@@ -13,10 +13,12 @@ SPEC = dict(
          "and compared",
     assumptions=["ASan/UBSan see only red-zone overflows", "new bytes exposed by realloc/alloc are unspecified and defined by the harness before comparison"],
     quick=dict(runs=[R("c17_msg", "asan", 8, 0, "exh3", 300),
-                     R("c17_msg", "asan", 8, 4000, "rand", 300)],
-               floor={"cases": 20000, "@classes": 150},
+                     R("c17_msg", "asan", 8, 4000, "rand", 300),
+                     R("c17_msg", "asan", 4, 0, "huge", 300)],
+               floor={"cases": 20000, "@classes": 150, "huge_requests": 10000},
                exhaustive_note="mode exh3 enumerates the reduced alphabet completely; the random part is sampled"),
     thorough=dict(runs=[R("c17_msg", "asan", 16, 0, "exh4", 1800),
-                        R("c17_msg", "asan", 16, 60000, "rand", 1800)],
-                  floor={"cases": 400000, "@classes": 150}),
+                        R("c17_msg", "asan", 16, 60000, "rand", 1800),
+                        R("c17_msg", "asan", 4, 0, "huge", 300)],
+                  floor={"cases": 400000, "@classes": 150, "huge_requests": 10000}),
 )
